@@ -116,7 +116,17 @@ def huge_value_routines():
             "linked_params": [["n", [["lookup", "n"]]], ["k", [["lookup", "k"]]]],
             "ports": [{"name": "out_0", "direction": "output", "size": None}], "resources": [], "connections": [["lookup.out_0", "out_0"]],
             "repetition": None, "children": [leaf]}
-    return [root]
+    # ... and values far BELOW one: an error probability 1e-20, a rotation angle 1.23456789012e-10 (exact fractions; the cost
+    # k * eps and the angle itself are numbers to 15 significant digits, not to 15 decimal places)
+    tleaf = {"name": "synth", "type": None, "input_params": ["eps", "k"], "local_variables": [], "linked_params": [], "ports": [],
+             "resources": [{"name": "err", "type": "additive", "value": E.op("mul", E.sym("k"), E.sym("eps"))},
+                           {"name": "angle", "type": "other", "value": E.op("div", E.sym("eps"), E.num(3))},
+                           {"name": "T", "type": "additive", "value": E.op("add", E.op("mul", E.sym("k"), E.num(7)), E.num(1))}],
+             "connections": [], "repetition": None, "children": []}
+    troot = {"name": "tinyroot", "type": None, "input_params": ["eps", "k"], "local_variables": [],
+             "linked_params": [["eps", [["synth", "eps"]]], ["k", [["synth", "k"]]]], "ports": [], "resources": [], "connections": [],
+             "repetition": None, "children": [tleaf]}
+    return [root, troot]
 
 
 def build_cases(rng, n, max_depth, p_rep=0.3, repeated_only=False):
@@ -157,6 +167,10 @@ def build_cases(rng, n, max_depth, p_rep=0.3, repeated_only=False):
         if r["name"] == "hugeroot":
             fns, mode = None, "total"
             assign = [["n", ["int", rng.choice([400, 1100])]], ["k", ["int", rng.randint(1, 9)]]]
+        if r["name"] == "tinyroot":
+            fns, mode = None, "total"
+            # (a FLOAT: the values that follow go through the 15-digit folding)
+            assign = [["eps", ["float", rng.choice([1e-20, 1.23456789012e-10, 5e-9, 2.5e-13])]], ["k", ["int", rng.randint(2, 9)]]]
         case = {"routine": r, "assign": assign, "mode": mode}
         if len(assign) >= 2:
             perm = list(assign)
@@ -201,6 +215,8 @@ def emit(pairs):
             names |= E.fv(value_expr(v))
         pts = H.points_to_coq(H.make_points(lib.Rng(f"pts-{lib.case_hash(case)}"), names, 3))
         inex = "true" if imp.get("inexact") or any(v[0] == "float" for _, v in case["assign"]) else "false"
+        if case["routine"]["name"] == "tinyroot":
+            inex = "false"      # values far below one: compared RELATIVELY (to 12 digits), an absolute tolerance would accept 0
         self_ref = "true" if case["mode"] == "expr" else "false"
         items.append(f"(check_eval_case c{k} {env_to_coq(case['assign'])} {fm_to_coq(case.get('functions', []))} {self_ref} "
                      f"e1_{k} e2_{k} e3_{k} {inex} {pts})")
